@@ -49,6 +49,13 @@ CLAIMED = {
  'C17': ('Proved over R: flatten yields a chain from the start to the end whose vertices are the curve at a non-decreasing parameter list from exactly 0 to exactly 1, every edge from a curve records its origin, short curves become their chord, lines are returned unchanged, path flatten concatenates and copies the closed flag. '
          'The edge-count clause is not proved (refuted for short cubics: two recorded known findings); purity is checked by the search.',
          'hand model of the three flatten routines over the sampler model with bit-exact correspondence; list induction', '4/C17'),
+ 'C11': ('Proved on a hand model tied by bit-exact correspondence: |sum of n signs| has the parity of n (so the result\'s parity is the crossing count\'s whatever the tangents); for closed polygons in explicit general position (level clear of every node by the code\'s own 2e-7 window, no isclose-but-not-exact vertical edge, ray shorter than 5e7 units, distinct crossing points) '
+         'pointIsInside is the even-odd parity of the edges crossed by the leftward ray, left and right parities agree, the winding number is the absolute signed count, and it is 0 outside the bounding box; per-segment crossing lemmas for curves. '
+         'Each excluded case is a recorded known finding with a refutation witness (five classes). Even-odd for curved segments is searched only.',
+         'hand model of windingNumberOfPoint over the generated intersection kernels; telescoping balance argument over the closed chain; from-scratch even-odd search incl. level-with-node families', '4/C11'),
+ 'C14': ('Proved for ANY numeric core: segment count never exceeds the budget, a budget of n-1 suffices, accepted pieces cover the data with shared end points; for the transcribed numeric core over R: first/last points interpolated exactly, the chain is connected, every input point within sqrt(error+1e-9) of its accepted cubic at a parameter in [0,1], the three "return []" exits are dead code, '
+         'adjacent-duplicate removal is exactly that; the only escape is a corner re-entry that would diverge (characterised, never observed). The float run taking the same decisions and finiteness of control points are measured (bit-exact correspondence of the whole fitter incl. its call log).',
+         'two-layer hand model (recursion skeleton over an abstract core + bit-faithful numeric core) with bit-exact correspondence; induction on fuel; search over all families of the quantifier', '4/C14'),
 }
 PENDING_REASON = 'machinery for this property is not built yet in this revision (see DESIGN section 7); it is not claimed on the strength of a search alone'
 ALL = ['C%02d' % i for i in range(1, 21)]
